@@ -9,12 +9,16 @@ mod errors;
 mod keyring;
 
 mod env;
+mod fx;
 mod mon;
 mod proc;
 mod refspec;
 mod report;
+mod streams;
 mod util;
 
+mod c01;
+mod c10;
 mod c19;
 
 use report::{Report, Tier};
@@ -31,6 +35,8 @@ struct Check {
 
 fn checks() -> Vec<Check> {
     vec![
+        Check { id: "C01", level: "exploration", run: c01::run, replay: c01::replay },
+        Check { id: "C10", level: "fault_enumeration", run: c10::run, replay: c10::replay },
         Check { id: "C19", level: "exploration", run: c19::run, replay: c19::replay },
     ]
 }
